@@ -203,6 +203,8 @@ def audit_axioms(prop_id):
 
 def run_driver(lines, timeout=3000):
   """Feeds request lines to the native model driver; returns response lines."""
+  if not lines:
+    return []
   data = '\n'.join(lines) + '\n'
   p = subprocess.run([DRIVER], input=data, stdout=subprocess.PIPE, stderr=subprocess.PIPE,
                      text=True, timeout=timeout)
